@@ -5,7 +5,11 @@ on the real code and `Sem/Mappers` + `Spec/Mappers` in the Lean driver on the du
 instance.
 
 case = {"cls": classdesc, "kw": instance tree, "camel": bool, "strict": bool,
-        "explicit": None | wire mapper dict, "doc2": bool}
+        "explicit": None | wire mapper dict, "doc2": bool,
+        "pre": [call]}   -- history: calls made BEFORE the main call on the same class objects, in order
+call = {"target": name of the top class or of a nested class, "kw", "camel", "strict", "explicit", "doc2"}
+(the process-wide cache aggregated_mapper_by_class is keyed by (class, override, camel flag): every call
+ of a history is compared with the model, which threads the same cache)
 classdesc = {"name": str, "levels": [{"mapper": attr | None, "fields": [fielddesc]}]}   (base first)
 fielddesc = {"n": str, "opt": bool, "kind": "int" | "one" | "arr" | "set", "cls": classdesc?}
 wire mapper: "lower" | "camel" | {"d": [[key, val]]}, val = str | {"dns": true} | {"d": [...]};
@@ -171,6 +175,57 @@ def gen_explicit(rng, cd):
     return m["d"]
 
 
+def nested_cds(cd, acc=None):
+    acc = [] if acc is None else acc
+    for f in all_fields(cd):
+        if f["kind"] != "int":
+            acc.append(f["cls"])
+            nested_cds(f["cls"], acc)
+    return acc
+
+
+def gen_pre(rng, cd, case):
+    """a history of 1-3 earlier calls on the same class objects: same class with the other / same
+    camel flag and the same / another override, or a nested class serialized in its own right first"""
+    nested = nested_cds(cd)
+    pre = []
+    for _ in range(rng.randint(1, 3)):
+        if nested and rng.random() < 0.3:
+            tcd = rng.choice(nested)
+            kw = gen_instance(rng, tcd, 0.4)
+        else:
+            tcd = cd
+            kw = case["kw"] if rng.random() < 0.5 else gen_instance(rng, cd, 0.4)
+        r = rng.random()
+        if r < 0.7 or tcd is not cd:
+            explicit = None if (tcd is not cd or rng.random() < 0.8) else gen_explicit(rng, tcd)
+        else:
+            explicit = case["explicit"]
+        pre.append({"target": tcd["name"], "kw": kw,
+                    "camel": (not case["camel"]) if rng.random() < 0.6 else rng.random() < 0.5,
+                    "strict": rng.random() < 0.3, "explicit": explicit, "doc2": False})
+    return pre
+
+
+def history_cases(rng, n):
+    """directed stream: one class serialized several times in one process with alternating
+    camel_case_convert (both orders), without and with an explicit override"""
+    out = []
+    for i in range(n):
+        cd = gen_class(rng, 0, 2, rng.choice([0, 1, 2]))
+        kw = gen_instance(rng, cd, 0.3)
+        ex = gen_explicit(rng, cd) if rng.random() < 0.3 else None
+        for flags in ([True, False, True], [False, True]):
+            calls = [{"target": cd["name"], "kw": kw, "camel": fl, "strict": False, "explicit": ex, "doc2": False}
+                     for fl in flags]
+            main = dict(calls[-1])
+            del main["target"]
+            main["cls"] = cd
+            main["pre"] = calls[:-1]
+            out.append(main)
+    return out
+
+
 def gen_cases(rng, tier, n):
     cases = []
     for i in range(n):
@@ -182,8 +237,10 @@ def gen_cases(rng, tier, n):
                 case = {"cls": cd, "kw": kw, "camel": camel, "strict": rng.random() < 0.4,
                         "explicit": gen_explicit(rng, cd) if rng.random() < 0.22 else None,
                         "doc2": rng.random() < 0.5}
+                if rng.random() < 0.4:
+                    case["pre"] = gen_pre(rng, cd, case)
                 cases.append(case)
-    return cases + fixed_cases()
+    return cases + history_cases(rng, max(20, n // 25)) + fixed_cases()
 
 
 def _flat(name, fields, mapper, opt=()):
@@ -374,6 +431,18 @@ def identity_doc(tree):
     return tree
 
 
+def find_cd(cd, name):
+    """class descriptor called `name` inside the tree of `cd`"""
+    if cd["name"] == name:
+        return cd
+    for f in all_fields(cd):
+        if f["kind"] != "int":
+            r = find_cd(f["cls"], name)
+            if r is not None:
+                return r
+    return None
+
+
 def run_impl(case):
     cd = case["cls"]
     registry = {}
@@ -384,6 +453,18 @@ def run_impl(case):
     required = set(getattr(cls, "_required"))
     if required != {f["n"] for f in all_fields(cd) if not f["opt"]}:
         raise RuntimeError(f"required {required}")
+    pre = []
+    for call in case.get("pre") or []:
+        pre.append(run_call(find_cd(cd, call["target"]), registry, call))
+    out = run_call(cd, registry, case)
+    if pre:
+        out["pre"] = pre
+    return out
+
+
+def run_call(cd, registry, case):
+    """one Serializer / serialize / Deserializer call on the (already built) class of `cd`"""
+    cls = registry[cd["name"]]
     x = make_instance(cd, case["kw"], registry)
     explicit = to_py_dict(case["explicit"]) if case["explicit"] is not None else None
     camel, strict = case["camel"], case["strict"]
@@ -445,12 +526,21 @@ def cls_to_wire(cd):
     return {"hier": [lv["mapper"] for lv in cd["levels"]], "fields": fields}
 
 
-def line(case, impl):
-    l = {"suite": "mapper", "cls": cls_to_wire(case["cls"]), "camel": case["camel"], "strict": case["strict"],
-         "explicit": case["explicit"], "inst": impl.get("inst", {"o": []}),
+def call_wire(cd, call, impl):
+    l = {"cid": cd["name"], "cls": cls_to_wire(cd), "camel": call["camel"], "strict": call["strict"],
+         "explicit": call["explicit"], "inst": impl.get("inst", {"o": []}),
          "inst_canon": impl.get("inst_canon", {"o": []})}
     if "doc2" in impl:
         l["doc2"] = impl["doc2"]
+    return l
+
+
+def line(case, impl):
+    l = call_wire(case["cls"], case, impl)
+    l["suite"] = "mapper"
+    pre = case.get("pre") or []
+    if pre and len(impl.get("pre", [])) == len(pre):
+        l["pre"] = [call_wire(find_cd(case["cls"], c["target"]), c, im) for c, im in zip(pre, impl["pre"])]
     return l
 
 
@@ -486,6 +576,15 @@ def tags(case, impl, model):
          f"camel={case['camel']}", f"strict={case['strict']}",
          "explicit=" + ("none" if case["explicit"] is None else "yes")]
     t += ["mapper:" + k for k in sorted(mapper_kinds(case["cls"], set()))]
+    pre = case.get("pre") or []
+    t.append(f"history={len(pre)}")
+    top = [c for c in pre if c["target"] == case["cls"]["name"]]
+    if any(c["camel"] != case["camel"] for c in top):
+        t.append("history:same-class-other-camel-flag")
+    if any(c["explicit"] != case["explicit"] for c in top):
+        t.append("history:same-class-other-override")
+    if any(c["target"] != case["cls"]["name"] for c in pre):
+        t.append("history:nested-class-first")
     if "deser" in impl:
         t.append("deser=" + ("ok" if "ok" in impl["deser"] else "err:" + impl["deser"]["err"]))
         if "ok" in impl["deser"]:
@@ -501,27 +600,26 @@ def tags(case, impl, model):
 
 def nontrivial(case):
     return bool(mapper_kinds(case["cls"], set()) - {"nested:one", "nested:arr", "nested:set"}) or case["camel"] \
-        or case["explicit"] is not None
+        or case["explicit"] is not None or bool(case.get("pre"))
 
 
 def describe(case, impl, model):
     return {"class": case["cls"], "kw": case["kw"], "camel": case["camel"], "strict": case["strict"],
-            "explicit": case["explicit"], "real_document": wire_to_py(impl["doc"]) if "doc" in impl else None,
+            "explicit": case["explicit"], "history": case.get("pre") or [], "real_document": wire_to_py(impl["doc"]) if "doc" in impl else None,
             "real_deserialized": impl.get("deser"), "model_hypotheses": (model or {}).get("hyp")}
 
 
 # ------------------------------------------------------------------ judging
 
-def bad_explicit_keys(case):
+def bad_explicit_keys(case, cd=None):
     if case["explicit"] is None:
         return []
-    names = {f["n"] for f in all_fields(case["cls"])}
+    names = {f["n"] for f in all_fields(cd or case["cls"])}
     return [k for k, _ in case["explicit"] if k.split(".")[0] not in names]
 
 
-def correspondence(case, impl, model):
-    """first disagreement between the real code and the Lean model, or None"""
-    cd = case["cls"]
+def correspondence(cd, impl, model):
+    """first disagreement between the real code and the Lean model for one call, or None"""
     wrap_ok = impl.get("ser_wrapper") == "ok" and impl.get("des_wrapper") == "ok"
     if impl.get("ser_wrapper") != impl.get("des_wrapper") and "ok" in (impl.get("ser_wrapper"), impl.get("des_wrapper")):
         return f"Serializer wrapper {impl.get('ser_wrapper')} but Deserializer wrapper {impl.get('des_wrapper')}"
